@@ -154,13 +154,13 @@ def cut(model, reported):
 
 
 def check_fields(ctx, ir, st, reported, include_deprecated, witness):
-    declared = [f for f in st.fields if include_deprecated or not f.deprecation]
+    declared = [f for f in st.fields if include_deprecated or f.deprecation is None]
     if reported is None:
         ctx.violation("members:fields-null", witness, st.name)
         return
     names = [f["name"] for f in reported]
     if names != [f.name for f in declared]:
-        hidden = [f.name for f in st.fields if f.deprecation]
+        hidden = [f.name for f in st.fields if f.deprecation is not None]
         key = "deprecated-visibility:fields" if set(names) ^ set(f.name for f in declared) <= set(hidden) else "members:fields"
         ctx.violation(key, witness, "%s reported %r expected %r" % (st.name, names, [f.name for f in declared]))
         return
@@ -170,7 +170,7 @@ def check_fields(ctx, ir, st, reported, include_deprecated, witness):
             ctx.violation("description:field", witness, "%s.%s" % (st.name, f.name))
         if "type" in r and r["type"] != cut(type_ref(ir, f.type), r["type"]):
             ctx.violation("type-ref:field", witness, "%s.%s reported %r" % (st.name, f.name, r["type"]))
-        if "isDeprecated" in r and (r["isDeprecated"] != bool(f.deprecation) or r["deprecationReason"] != f.deprecation):
+        if "isDeprecated" in r and (r["isDeprecated"] != (f.deprecation is not None) or r["deprecationReason"] != f.deprecation):
             ctx.violation("deprecation:field", witness, "%s.%s reported %r/%r declared %r" % (st.name, f.name, r["isDeprecated"], r["deprecationReason"], f.deprecation))
         if "args" in r:
             check_input_values(ctx, ir, f.args, r["args"], witness, "%s.%s" % (st.name, f.name))
@@ -213,17 +213,17 @@ def check_type(ctx, ir, st, r, include_deprecated, witness):
             ctx.violation("members:possibleTypes-on-%s" % st.kind, witness, st.name)
     if "enumValues" in r:
         if st.kind == "enum":
-            declared = [v for v in st.values if include_deprecated or not v.deprecation]
+            declared = [v for v in st.values if include_deprecated or v.deprecation is None]
             got = [x["name"] for x in (r["enumValues"] or [])]
             if r["enumValues"] is None or got != [v.name for v in declared]:
-                hidden = [v.name for v in st.values if v.deprecation]
+                hidden = [v.name for v in st.values if v.deprecation is not None]
                 key = "deprecated-visibility:enumValues" if set(got) ^ set(v.name for v in declared) <= set(hidden) else "members:enumValues"
                 ctx.violation(key, witness, "%s reported %r expected %r" % (st.name, got, [v.name for v in declared]))
             else:
                 for v, x in zip(declared, r["enumValues"]):
                     if "description" in x and x["description"] != v.description:
                         ctx.violation("description:enum-value", witness, "%s.%s" % (st.name, v.name))
-                    if "isDeprecated" in x and (x["isDeprecated"] != bool(v.deprecation) or x["deprecationReason"] != v.deprecation):
+                    if "isDeprecated" in x and (x["isDeprecated"] != (v.deprecation is not None) or x["deprecationReason"] != v.deprecation):
                         ctx.violation("deprecation:enum-value", witness, "%s.%s" % (st.name, v.name))
         elif r["enumValues"] is not None:
             ctx.violation("members:enumValues-on-%s" % st.kind, witness, st.name)
